@@ -13,11 +13,30 @@ from yaql.language import exceptions
 def main():
     texts = json.loads(sys.stdin.read() or '[]')
     engine = yaql.YaqlFactory().create()
+    # error positions are offsets into the text as given, also when it is
+    # not in a Unicode normal form / has unusual line ends
+    texts = list(texts) + [
+        "'\u0958\u0958\u0958' #", "'\u09dc' + \x01", "'e\u0301' ?? 1",
+        "'\ufb2a\ufb2a' \x7f", "'a\r\nb' #", "'\u212b' + + )",
+        "'\U0001d15e\U0001d15e' #", "1 +\r\n #"]
     for t in texts:
         try:
             engine(t)
-        except exceptions.YaqlParsingException:
-            pass
+        except exceptions.YaqlParsingException as e:
+            pos = getattr(e, 'position', None)
+            bad = None
+            if pos is not None and not (0 <= pos < len(t)):
+                bad = 'error position %r outside the text (length %d)' % (
+                    pos, len(t))
+            elif pos is not None and isinstance(
+                    e, exceptions.YaqlLexicalException) and \
+                    t[pos] != e.value:
+                bad = 'lexical error reports %r at %d, the text has %r ' \
+                      'there' % (e.value, pos, t[pos])
+            if bad:
+                print(json.dumps(dict(status='failed', text=t[:200],
+                                      length=len(t), detail=bad)))
+                return
         except Exception as e:      # noqa
             print(json.dumps(dict(status='failed', text=t[:200],
                                   length=len(t),
